@@ -117,10 +117,11 @@ def undefined_names(model, R, scope):
                 if isinstance(node, ast.Lambda):
                     scopes |= params_of(node)
             nested_nodes = set()
-            for sub in func.nested.values():
-                for x in ast.walk(sub.node):
-                    if x is not sub.node:
-                        nested_nodes.add(x)
+            for sub in ast.walk(func.node):
+                if isinstance(sub, (ast.FunctionDef, ast.AsyncFunctionDef)) and sub is not func.node:
+                    for x in ast.walk(sub):
+                        if x is not sub:
+                            nested_nodes.add(x)
             for node in ast.walk(func.node):
                 if node in nested_nodes:
                     continue
@@ -466,8 +467,14 @@ def one_shot(model, R, scope):
         names = []
         a = func.node.args
         for arg in a.posonlyargs + a.args + a.kwonlyargs:
-            ann = src(arg.annotation) if arg.annotation is not None else ''
-            if 'Iterable' in ann or 'Iterator' in ann:
+            ann = arg.annotation
+            if isinstance(ann, ast.Constant) and isinstance(ann.value, str):
+                try:
+                    ann = ast.parse(ann.value, mode='eval').body
+                except SyntaxError:
+                    ann = None
+            outer = ann.value if isinstance(ann, ast.Subscript) else ann
+            if outer is not None and (chain(outer) or [''])[-1] in ('Iterable', 'Iterator', 'Generator'):
                 names.append(arg.arg)
         fed = lazy_callsite_params(model, func) if func.name not in ('__getitem__', '__call__', '__contains__', '__iter__') else {}
         for extra in fed:
